@@ -86,32 +86,76 @@ Proof. unfold bloom_bits_key, be_encode. cbn [length]. rewrite app_length, !rev_
 Lemma bloom_key_ne_bits_key h i s : bloom_key h <> bloom_bits_key i s.
 Proof. intro H. apply (f_equal (@length N)) in H. rewrite bloom_key_length, bits_key_length in H. discriminate. Qed.
 
-(** ** the key-value list *)
+(** ** the key-value map *)
 
-Lemma kv_get_put s k v k' : kv_get (kv_put s k v) k' = if bytes_eqb k' k then Some v else kv_get s k'.
-Proof. reflexivity. Qed.
-
-Lemma kv_get_put_same s k v : kv_get (kv_put s k v) k = Some v.
+Lemma le_decode_app a b : le_decode (a ++ b) = le_decode a + 256 ^ N.of_nat (length a) * le_decode b.
 Proof.
-  rewrite kv_get_put. replace (bytes_eqb k k) with true; [reflexivity|]. symmetry; apply bytes_eqb_eq; reflexivity.
+  induction a as [|x r IH]; [cbn [app le_decode length]; change (N.of_nat 0) with 0; rewrite N.pow_0_r; lia|].
+  cbn [app le_decode length]. rewrite IH, pow256_succ. ring.
 Qed.
 
-Lemma kv_get_put_other s k v k' : k' <> k -> kv_get (kv_put s k v) k' = kv_get s k'.
+Lemma key_num_bounds k : wf_bytes k = true ->
+  256 ^ N.of_nat (length k) <= le_decode (k ++ [1]) < 2 * 256 ^ N.of_nat (length k).
 Proof.
-  intro H. rewrite kv_get_put. destruct (bytes_eqb k' k) eqn:E; [|reflexivity].
-  apply bytes_eqb_eq in E. contradiction.
+  intro W. rewrite le_decode_app. cbn [le_decode]. assert (H := le_decode_bound k W). lia.
+Qed.
+
+Lemma key_pos_inj k k' : wf_bytes k = true -> wf_bytes k' = true -> key_pos k = key_pos k' -> k = k'.
+Proof.
+  intros W W' H. unfold key_pos in H.
+  assert (E : le_decode (k ++ [1]) = le_decode (k' ++ [1])).
+  { apply (f_equal N.pos) in H. rewrite !N.succ_pos_spec in H. lia. }
+  assert (B := key_num_bounds k W). assert (B' := key_num_bounds k' W').
+  assert (L : length k = length k').
+  { destruct (Nat.lt_trichotomy (length k) (length k')) as [Hlt|[He|Hgt]]; [exfalso|exact He|exfalso].
+    - assert (256 * 256 ^ N.of_nat (length k) <= 256 ^ N.of_nat (length k')).
+      { rewrite <- pow256_succ. apply N.pow_le_mono_r; lia. }
+      lia.
+    - assert (256 * 256 ^ N.of_nat (length k') <= 256 ^ N.of_nat (length k)).
+      { rewrite <- pow256_succ. apply N.pow_le_mono_r; lia. }
+      lia. }
+  rewrite !le_decode_app in E. cbn [le_decode] in E. rewrite L in E.
+  assert (E' : le_decode k = le_decode k') by lia.
+  rewrite <- (le_encode_decode k W), <- (le_encode_decode k' W'), L, E'. reflexivity.
+Qed.
+
+Lemma kv_get_empty k : kv_get (PositiveMap.empty bytes) k = None.
+Proof. apply PositiveMap.gempty. Qed.
+
+Lemma kv_get_put_same s k v : kv_get (kv_put s k v) k = Some v.
+Proof. apply PositiveMap.gss. Qed.
+
+Lemma kv_get_put_other s k v k' : wf_bytes k = true -> wf_bytes k' = true -> k' <> k ->
+  kv_get (kv_put s k v) k' = kv_get s k'.
+Proof.
+  intros W W' H. apply PositiveMap.gso. intro E. apply H. apply key_pos_inj; assumption.
+Qed.
+
+Lemma wf_bytes_rev b : wf_bytes (rev b) = wf_bytes b.
+Proof.
+  induction b as [|x r IH]; [reflexivity|]. cbn [rev]. rewrite wf_bytes_app, IH. cbn [wf_bytes forallb]. 
+  rewrite andb_true_r. apply andb_comm.
+Qed.
+
+Lemma bloom_key_wf h : wf_bytes (bloom_key h) = true.
+Proof. unfold bloom_key. rewrite wf_bytes_cons, le_encode_wf. reflexivity. Qed.
+
+Lemma bits_key_wf i s : wf_bytes (bloom_bits_key i s) = true.
+Proof.
+  unfold bloom_bits_key, be_encode. rewrite wf_bytes_cons, wf_bytes_app, !wf_bytes_rev, !le_encode_wf. reflexivity.
 Qed.
 
 (** the loop of [PutBloomIndex] *)
 Definition put_all (section : N) (ivs : list (N * bytes)) (s : kvstore) : kvstore :=
   fold_left (fun acc iv => kv_put acc (bloom_bits_key (fst iv) section) (compress_bytes (snd iv))) ivs s.
 
-Lemma put_all_other section ivs : forall s k, (forall iv, In iv ivs -> k <> bloom_bits_key (fst iv) section) ->
+Lemma put_all_other section ivs : forall s k, wf_bytes k = true ->
+  (forall iv, In iv ivs -> k <> bloom_bits_key (fst iv) section) ->
   kv_get (put_all section ivs s) k = kv_get s k.
 Proof.
-  induction ivs as [|iv r IH]; intros s k H; [reflexivity|].
-  simpl. rewrite IH by (intros iv' H'; apply H; right; exact H').
-  apply kv_get_put_other, H; left; reflexivity.
+  induction ivs as [|iv r IH]; intros s k W H; [reflexivity|].
+  simpl. rewrite IH by (try exact W; intros iv' H'; apply H; right; exact H').
+  apply kv_get_put_other; [apply bits_key_wf|exact W|apply H; left; reflexivity].
 Qed.
 
 Lemma put_all_hit section (vs : list bytes) : forall n0 s i, (n0 + N.of_nat (length vs) <= 65536) -> section < U32 ->
@@ -127,7 +171,7 @@ Proof.
   cbn [length] in Hb, Hi.
   destruct (N.eqb_spec i n0) as [->|Hne].
   - fold (put_all section (combine (nseq (n0 + 1) (N.of_nat (length r))) r) (kv_put s (bloom_bits_key n0 section) (compress_bytes v))).
-    rewrite put_all_other.
+    rewrite put_all_other; [|apply bits_key_wf|].
     + rewrite kv_get_put_same. replace (N.to_nat (n0 - n0)) with 0%nat by lia. reflexivity.
     + intros [iv1 iv2] Hin E. cbn [fst] in E. apply in_combine_l in Hin. apply In_nseq in Hin.
       apply bits_key_inj in E; unfold U32 in *; lia.
